@@ -25,6 +25,7 @@ type SchemaFeatures struct {
 	SharedUnionMem  bool
 	Mutation        bool
 	Subscription    bool
+	Underscore      bool // type and field names starting with a single underscore (`_Service`, `_entities`): ordinary names
 }
 
 func (f SchemaFeatures) Tags() []string {
@@ -49,6 +50,7 @@ func (f SchemaFeatures) Tags() []string {
 	add(f.BlockDesc, "s:block-descriptions")
 	add(f.SpecifiedBy, "s:specifiedBy")
 	add(f.SharedUnionMem, "s:shared-union-member")
+	add(f.Underscore, "s:underscore-names")
 	sort.Strings(t)
 	return t
 }
@@ -64,6 +66,7 @@ func RandomFeatures(r *rand.Rand) SchemaFeatures {
 	if p(0.12) {
 		f.MaxWrapDepth = 4 + r.Intn(6)
 	}
+	f.Underscore = p(0.3)
 	if !f.Directives {
 		f.DirectiveArgs, f.Repeatable = false, false
 	}
@@ -331,6 +334,10 @@ func GenSchema(r *rand.Rand, f SchemaFeatures) string {
 		b.WriteString("}\n")
 	}
 	b.WriteString("type Leaf {\n  v: Int\n}\n")
+	if f.Underscore {
+		b.WriteString("type _Service {\n  sdl: String\n  _rev: Int\n}\nenum _Mode {\n  _ON\n  OFF\n}\ntype _Orphan {\n  x: _Mode\n}\n")
+		outTypes = append(outTypes, "_Service", "_Mode")
+	}
 	b.WriteString("union AnyU = Thing | Leaf\n")
 	if f.SharedUnionMem {
 		b.WriteString("union OtherU = Other | Thing\n")
@@ -342,6 +349,9 @@ func GenSchema(r *rand.Rand, f SchemaFeatures) string {
 		for i := 0; i < n; i++ {
 			t := g.wrap(pick(r, outTypes), f.MaxWrapDepth)
 			fmt.Fprintf(b, "  r%d%s: %s%s\n", i, g.args(r.Intn(3)), t, g.depr())
+		}
+		if name == qn && f.Underscore {
+			b.WriteString("  _service: _Service!\n  _entities(_kind: _Mode = _ON): [AnyU]\n")
 		}
 		if name == qn {
 			b.WriteString("  search(in: Search")
